@@ -12,3 +12,5 @@ func verifRes(*ModuleInstance)                      {}
 
 // VerifPoint marks a named point between critical sections.
 func VerifPoint(string, *ModuleInstance) {}
+
+func verifWait(string, *MemoryInstance, interface{}, uint32) {}
